@@ -264,32 +264,93 @@ Lemma next_token_writes_past_buffer :
   exists tr r m' o', next_token_line 200 line119 0 = Done (r, m', o', tr) /\ In 120 tr /\ cap line119 = 120.
 Proof. vm_compute. eexists _, _, _, _. split; [reflexivity|]. split; [left; reflexivity|reflexivity]. Qed.
 
-(* every line delivered by the memory stream satisfies the invariant at offset 0 *)
+(* every line delivered by the memory stream (as of commit 5667f2e: growing buffer)
+   satisfies the invariant at offset 0, with a slack byte *)
 Lemma fetch_mem_line_inv :
-  forall s rc m r, fetch_line MemStream None s = (rc, m, r) -> 0 < rc -> line_inv m 0 /\ cap m = 1024.
+  forall s rc m r, fetch_line MemStream None s = (rc, m, r) -> 0 < rc -> line_inv m 0.
 Proof.
   intros s rc m r H Hrc. unfold fetch_line in H.
   destruct s as [|c t]; [inversion H; subst; lia|].
   destruct (take_line (c :: t)) as [[l r'] nl].
-  destruct (Z.of_nat (length l) <=? 1024 - 2) eqn:E; [|inversion H; subst; lia].
-  inversion H; subst; clear H. split; [|reflexivity].
+  remember (grow_mem 11 1024 (Z.of_nat (length l))) as cc.
+  destruct (Z.of_nat (length l) <=? cc - 2) eqn:E; [|inversion H; subst; lia].
+  inversion H; subst rc m r; clear H.
   exists (Z.of_nat (length l)). simpl cap. repeat split; try lia.
   unfold mem_of. simpl get. rewrite app_length. simpl length.
   replace ((0 <=? Z.of_nat (length l)) && (Z.of_nat (length l) <? Z.of_nat (length l + 1))) with true by lia.
   rewrite Nat2Z.id. rewrite app_nth2; [|lia]. rewrite Nat.sub_diag. reflexivity.
 Qed.
 
-(* hence: all the tokens of any line of an in-memory string are read in bounds *)
+Lemma line_inv_weaken : forall m off, line_inv m off -> line_inv_weak m off.
+Proof. intros m off [n [H1 [H2 [H3 _]]]]. exists n. auto. Qed.
+
+(* all the tokens of a line, tokenizer as it is now *)
+Lemma tokens_of_line_cur_safe :
+  forall k fuel m off acc tr0 r,
+    line_inv_weak m off -> cap m < Z.of_nat fuel -> in_bounds (cap m) tr0 ->
+    tokens_of_line_cur k fuel m off acc tr0 = r ->
+    r = OutOfFuel \/ exists toks tr, r = Done (toks, tr) /\ in_bounds (cap m) tr.
+Proof.
+  induction k as [|k IH]; intros fuel m off acc tr0 r Hinv Hf Hb Hr; simpl in Hr; [left; auto|].
+  destruct (next_token_line_fixed_safe m off fuel Hinv Hf) as [t [off' [tr [H1 [H2 H4]]]]].
+  rewrite H1 in Hr.
+  assert (Hb' : in_bounds (cap m) (tr ++ tr0)).
+  { unfold in_bounds in *. apply Forall_app. split; auto. }
+  destruct t as [b|].
+  - exact (IH fuel m off' (b :: acc) (tr ++ tr0) r H4 Hf Hb' Hr).
+  - right. eexists _, _. split; [symmetry; exact Hr|]. exact Hb'.
+Qed.
+
+(* hence: all the tokens of any line of an in-memory string are read in bounds,
+   by the old tokenizer (slack byte) and by the present one *)
 Lemma mem_stream_line_tokens_in_bounds :
   forall s rc m r k fuel res,
-    fetch_line MemStream None s = (rc, m, r) -> 0 < rc -> (1024 < fuel)%nat ->
+    fetch_line MemStream None s = (rc, m, r) -> 0 < rc -> cap m < Z.of_nat fuel ->
     tokens_of_line k fuel m 0 [] [] = res ->
-    res = OutOfFuel \/ exists toks tr, res = Done (toks, tr) /\ in_bounds 1024 tr.
+    res = OutOfFuel \/ exists toks tr, res = Done (toks, tr) /\ in_bounds (cap m) tr.
 Proof.
   intros s rc m r k fuel res Hf Hrc Hfu Hres.
-  destruct (fetch_mem_line_inv s rc m r Hf Hrc) as [Hinv Hcap].
-  rewrite <- Hcap.
-  apply (tokens_of_line_safe k fuel m 0 [] [] res Hinv); auto; [lia|constructor].
+  pose proof (fetch_mem_line_inv s rc m r Hf Hrc) as Hinv.
+  apply (tokens_of_line_safe k fuel m 0 [] [] res Hinv); auto. constructor.
+Qed.
+
+Lemma mem_stream_line_tokens_cur_in_bounds :
+  forall s rc m r k fuel res,
+    fetch_line MemStream None s = (rc, m, r) -> 0 < rc -> cap m < Z.of_nat fuel ->
+    tokens_of_line_cur k fuel m 0 [] [] = res ->
+    res = OutOfFuel \/ exists toks tr, res = Done (toks, tr) /\ in_bounds (cap m) tr.
+Proof.
+  intros s rc m r k fuel res Hf Hrc Hfu Hres.
+  pose proof (line_inv_weaken _ _ (fetch_mem_line_inv s rc m r Hf Hrc)) as Hinv.
+  apply (tokens_of_line_cur_safe k fuel m 0 [] [] res Hinv); auto. constructor.
+Qed.
+
+(* a FILE* line (fresh getline buffer): the terminator is inside the buffer, whatever
+   the length of the line -- enough for the present tokenizer *)
+Lemma fetch_file_line_inv_weak :
+  forall s rc m r, fetch_line FileStream None s = (rc, m, r) -> 0 < rc -> line_inv_weak m 0.
+Proof.
+  intros s rc m r H Hrc. unfold fetch_line in H.
+  destruct s as [|c t]; [inversion H; subst; lia|].
+  destruct (take_line (c :: t)) as [[l r'] nl].
+  remember (if nl then l ++ [10] else l) as content.
+  inversion H; subst rc m r; clear H.
+  exists (Z.of_nat (length content)). simpl cap. repeat split; try lia.
+  - destruct (Z.of_nat (length content) + 1 <=? 120) eqn:E; lia.
+  - unfold mem_of. simpl get. rewrite app_length. simpl length.
+    replace ((0 <=? Z.of_nat (length content)) && (Z.of_nat (length content) <? Z.of_nat (length content + 1))) with true by lia.
+    rewrite Nat2Z.id. rewrite app_nth2; [|lia]. rewrite Nat.sub_diag. reflexivity.
+Qed.
+
+Lemma file_stream_line_tokens_cur_in_bounds :
+  forall s rc m r k fuel res,
+    fetch_line FileStream None s = (rc, m, r) -> 0 < rc -> cap m < Z.of_nat fuel ->
+    tokens_of_line_cur k fuel m 0 [] [] = res ->
+    res = OutOfFuel \/ exists toks tr, res = Done (toks, tr) /\ in_bounds (cap m) tr.
+Proof.
+  intros s rc m r k fuel res Hf Hrc Hfu Hres.
+  pose proof (fetch_file_line_inv_weak s rc m r Hf Hrc) as Hinv.
+  apply (tokens_of_line_cur_safe k fuel m 0 [] [] res Hinv); auto. constructor.
 Qed.
 
 Lemma tokenizer_in_bounds_refuted :
